@@ -75,7 +75,14 @@ def run_real(case):
         kw['quantile'] = case['value']
     elif case['form'] == 'n_sim':
         kw['n_sim'] = case['value']
-    res = with_timeout(30.0, lambda: rej.sample(case['n'], bar=False, **kw))
+    if case.get('positional'):
+        # the documented positional order: sample(n_samples, threshold, quantile, n_sim)
+        args = [kw.get('threshold'), kw.get('quantile'), kw.get('n_sim')]
+        while args and args[-1] is None:
+            args.pop()
+        res = with_timeout(30.0, lambda: rej.sample(case['n'], *args, bar=False))
+    else:
+        res = with_timeout(30.0, lambda: rej.sample(case['n'], bar=False, **kw))
     return res, pool, stored
 
 
@@ -181,7 +188,8 @@ def gen_case(rng, boundary=None):
         n = rng.randint(1, 2)           # default quantile 0.01 -> 100..200 simulations
         b = rng.randint(5, 8)
     int_d = p_inf == 0 and rng.random() < .3
-    return dict(b=b, n=n, form=form, value=value, alphabet=A, p_inf=p_inf, int_discrepancy=int_d, seed=rng.randrange(2**32),
+    positional = rng.random() < .3
+    return dict(b=b, n=n, form=form, value=value, alphabet=A, p_inf=p_inf, int_discrepancy=int_d, positional=positional, seed=rng.randrange(2**32),
                 n_params=rng.randint(1, 3), summary_shape=rng.choice(['vec', 'mat']), extra=rng.random() < .6,
                 mpb=rng.choice([1, 1, 2, 3]))
 
